@@ -113,6 +113,70 @@ impl Bucket {
     }
 }
 
+/// A history in real time with sub-second gaps: the fraction of a second that a refill does not
+/// consume must be carried over to the next refill (the virtual clock of the main workload moves
+/// in whole seconds only and cannot see this).
+fn c26_fractional(rep: &mut Report, cat: &Arc<QCatalog>, slip: usize) {
+    let cfg = ServerCfg { payload: 1232, rrl: Some(RrlCfg { noerror: 1, nxdomain: 1, error: 1, window: 3, slip, v4_prefix: 24, v6_prefix: 56, size: 8 }), keys: vec![] };
+    let server = make_server(cat.clone(), &cfg);
+    let mut bufs = Buffers::new(1232);
+    let name = RName::simple("www.elsewhere."); // REFUSED: the error category
+    let mut send = |id: u16| -> Result<(Instant, Outcome, Instant), String> {
+        let before = Instant::now();
+        let resp = handle(&server, &query(id, &name, T_A, 0), LOCALHOST, false, &mut bufs).map_err(|p| format!("panic at {}: {}", p.location, p.message))?;
+        let after = Instant::now();
+        Ok((before, classify_outcome(&resp)?, after))
+    };
+    let limited = |o: Outcome| if slip == 0 { o == Outcome::Dropped } else { o == Outcome::Slipped };
+    let mut trace: Vec<String> = Vec::new();
+    let run = (|| -> Result<Option<String>, String> {
+        // fill the bucket: three sent, the fourth limited
+        let (first_before, o1, first_after) = send(1)?;
+        let (_, o2, _) = send(2)?;
+        let (_, o3, _) = send(3)?;
+        let (_, o4, _) = send(4)?;
+        trace.push(format!("t=0: {:?} {:?} {:?} {:?}", o1, o2, o3, o4));
+        if !(o1 == Outcome::Sent && o2 == Outcome::Sent && o3 == Outcome::Sent && limited(o4)) {
+            return Ok(Some("the bucket of capacity 3 did not fill as expected".into()));
+        }
+        // one virtual second plus 0.6 real seconds: one refill, 0.6 s carried over
+        server.verif_rrl_shift(1);
+        std::thread::sleep(std::time::Duration::from_millis(600));
+        let (a_before, oa, a_after) = send(5)?;
+        let (_, oa2, _) = send(6)?;
+        trace.push(format!("t=1.6: {:?} {:?}", oa, oa2));
+        // another 0.55 real seconds: 1.15 s since the refill instant, so one more refill is due
+        std::thread::sleep(std::time::Duration::from_millis(550));
+        let (b_before, ob, b_after) = send(7)?;
+        let (_, ob2, _) = send(8)?;
+        trace.push(format!("t=2.15: {:?} {:?}", ob, ob2));
+        // only judge when the real clock leaves no doubt about the whole seconds involved
+        let e1_max = a_after.duration_since(first_before).as_secs_f64();
+        let e2_min = b_before.duration_since(first_after).as_secs_f64();
+        let e2_max = b_after.duration_since(first_before).as_secs_f64();
+        if e1_max > 0.9 || e2_min < 1.05 || e2_max > 1.9 {
+            return Err("timing".into());
+        }
+        if !(oa == Outcome::Sent && limited(oa2)) {
+            return Ok(Some(format!("after 1 s + {:.2} s exactly one response is due, got {:?} then {:?}", e1_max, oa, oa2)));
+        }
+        if !(ob == Outcome::Sent && limited(ob2)) {
+            return Ok(Some(format!("{:.2}-{:.2} s after the previous refill instant exactly one more response is due (the unused fraction of a second carries over), got {:?} then {:?}", e2_min, e2_max, ob, ob2)));
+        }
+        Ok(None)
+    })();
+    rep.eval();
+    match run {
+        Err(e) if e == "timing" => rep.hist("fractional:discarded-timing"),
+        Err(e) => rep.violation("c26:fractional:panic-or-malformed", e, Json::Null),
+        Ok(Some(detail)) => rep.violation(format!("c26:fractional-carry:slip{}", slip), format!("rate 1 window 3 slip {}: {}", slip, detail), Json::obj(vec![("trace", Json::Arr(trace.iter().map(|t| Json::s(t.clone())).collect()))])),
+        Ok(None) => {
+            rep.class(&format!("fractional:slip{}", slip));
+            rep.hist("fractional:judged");
+        }
+    }
+}
+
 pub fn run_c26(ctx: &Ctx, rep: &mut Report) {
     let n = ctx.cases(3_000, 120_000);
     let (_reference, cat) = rrl_zone();
@@ -120,6 +184,9 @@ pub fn run_c26(ctx: &Ctx, rep: &mut Report) {
     for case in ctx.case_range(n) {
         rep.current_case = case;
         let mut rng = ctx.rng("c26", case);
+        if case % 64 == 7 && !ctx.is_miri() && (case / 64) < 6 {
+            c26_fractional(rep, &cat, (case / 64 % 2) as usize);
+        }
         let rate: u32 = *rng.pick(&[1u32, 1, 2, 3, 7, 100, 1_000_000, 1 << 31]);
         let window: u32 = loop {
             let w = *rng.pick(&[1u32, 1, 2, 15, 60, 4000]);
@@ -387,6 +454,10 @@ pub fn run_c27(ctx: &Ctx, rep: &mut Report) {
         let mut rng = ctx.rng("c27", case);
         let v4 = *rng.pick(&[0u8, 1, 8, 24, 24, 31, 32, 16]);
         let v6 = *rng.pick(&[0u8, 1, 48, 56, 56, 63, 64]);
+        // a quarter of the servers keep the default prefix lengths (the setters are never
+        // called): /24 for IPv4 and /56 for IPv6
+        let defaults = rng.chance(1, 4);
+        let (v4, v6) = if defaults { (24, 56) } else { (v4, v6) };
         let a = gen_req(&mut rng, None, v4, v6);
         let b = gen_req(&mut rng, Some(&a), v4, v6);
         let big = RName::simple("big.rrl.test.");
@@ -394,7 +465,7 @@ pub fn run_c27(ctx: &Ctx, rep: &mut Report) {
         // exactly like a slipped response: use slip 0 (drop) for those pairs
         let slip = if a.name.is_at_or_below(&big) || b.name.is_at_or_below(&big) { 0 } else { rng.below(2) };
         let size = *rng.pick(&[1usize, 7, 1024, 65537]);
-        let cfg = ServerCfg { payload: 1232, rrl: Some(RrlCfg { noerror: 1, nxdomain: 1, error: 1, window: 1, slip, v4_prefix: v4, v6_prefix: v6, size }), keys: vec![] };
+        let cfg = ServerCfg { payload: 1232, rrl: Some(RrlCfg { noerror: 1, nxdomain: 1, error: 1, window: 1, slip, v4_prefix: if defaults { 255 } else { v4 }, v6_prefix: if defaults { 255 } else { v6 }, size }), keys: vec![] };
         let server = make_server(cat.clone(), &cfg);
         let mut bufs = Buffers::new(1232);
         // what the same requests get without rate limiting (a response that
@@ -519,10 +590,32 @@ pub fn run_c28(ctx: &Ctx, rep: &mut Report) {
         let table = if ctx.is_miri() { 7 } else { 65537 };
         let cfg = ServerCfg { payload: 1232, rrl: Some(RrlCfg { noerror: rate, nxdomain: 1, error: 1, window, slip, v4_prefix: 24, v6_prefix: 56, size: table }), keys: vec![] };
         let server = Arc::new(make_server(cat.clone(), &cfg));
+        // refill race: with a window of several seconds, first fill the bucket from one thread,
+        // move the virtual clock by k < window seconds, and only then release the threads. Exactly
+        // one refill of rate x k is due, however many threads notice it at the same moment.
+        let refill_k: Option<u32> = if !ctx.is_miri() && window >= 2 && rng.chance(1, 2) { Some(rng.range(1, window as usize - 1) as u32) } else { None };
+        if let Some(k) = refill_k {
+            let mut bufs = Buffers::new(1232);
+            let source = IpAddr::V4(Ipv4Addr::new(10, 9, 9, 250));
+            let mut filled = 0u32;
+            for i in 0..capacity + 2 {
+                if let Ok(Some(r)) = handle(&server, &query(i as u16, &name, T_A, 0), source, false, &mut bufs) {
+                    if classify_outcome(&Some(r)).map_or(false, |o| o == Outcome::Sent) {
+                        filled += 1;
+                    }
+                }
+            }
+            if filled != capacity {
+                rep.violation("c28:prefill", format!("filling a fresh bucket of capacity {} sequentially gave {} responses", capacity, filled), Json::Null);
+                continue;
+            }
+            server.verif_rrl_shift(k as u64);
+        }
         let per_thread = total / threads;
         let total = per_thread * threads;
         let yield_mode = rng.below(3);
         let barrier = Arc::new(Barrier::new(threads));
+        let gate = Arc::new(AtomicUsize::new(0));
         let sent = Arc::new(AtomicU64::new(0));
         let slipped = Arc::new(AtomicU64::new(0));
         let dropped = Arc::new(AtomicU64::new(0));
@@ -533,11 +626,24 @@ pub fn run_c28(ctx: &Ctx, rep: &mut Report) {
         let mut handles = Vec::new();
         for t in 0..threads {
             let (server, barrier, sent, slipped, dropped, bad, active, max_active) = (server.clone(), barrier.clone(), sent.clone(), slipped.clone(), dropped.clone(), bad.clone(), active.clone(), max_active.clone());
+            let gate = gate.clone();
             let name = name.clone();
             handles.push(std::thread::spawn(move || {
                 let mut bufs = Buffers::new(1232);
                 let source = IpAddr::V4(Ipv4Addr::new(10, 9, 9, t as u8));
+                // a spinning start line: the threads leave it within nanoseconds of one another
+                // (a blocking barrier wakes them one by one, microseconds apart)
                 barrier.wait();
+                gate.fetch_add(1, Ordering::SeqCst);
+                let mut spins = 0u32;
+                while gate.load(Ordering::SeqCst) < threads {
+                    spins += 1;
+                    if spins % 4096 == 0 {
+                        std::thread::yield_now();
+                    } else {
+                        std::hint::spin_loop();
+                    }
+                }
                 for i in 0..per_thread {
                     let req = query((t * 1000 + i) as u16, &name, T_A, 0);
                     let now_active = active.fetch_add(1, Ordering::Relaxed) + 1;
@@ -586,7 +692,10 @@ pub fn run_c28(ctx: &Ctx, rep: &mut Report) {
             rep.hist("discarded:burst-took-too-long");
             continue;
         }
-        let want_sent = std::cmp::min(total as u64, capacity as u64);
+        let want_sent = match refill_k {
+            Some(k) => std::cmp::min(total as u64, rate as u64 * k as u64),
+            None => std::cmp::min(total as u64, capacity as u64),
+        };
         if s + sl + d != total as u64 {
             rep.violation("c28:conservation", format!("sent {} + slipped {} + dropped {} != requests {}", s, sl, d, total), w);
             continue;
@@ -604,7 +713,7 @@ pub fn run_c28(ctx: &Ctx, rep: &mut Report) {
             continue;
         }
         if s != want_sent {
-            rep.violation(format!("c28:count:{}", if s > want_sent { "too-many-sent" } else { "too-few-sent" }), format!("{} responses sent, expected min({}, {}) = {} ({} threads)", s, total, capacity, want_sent, threads), w);
+            rep.violation(format!("c28:count:{}", if s > want_sent { "too-many-sent" } else { "too-few-sent" }), format!("{} responses sent, expected {} ({} requests from {} threads, capacity {}, {})", s, want_sent, total, threads, capacity, match refill_k { Some(k) => format!("bucket pre-filled, then {} s of refill due", k), None => "fresh bucket".to_string() }), w);
             continue;
         }
         if (slip == 0 && sl != 0) || (slip == 1 && d != 0) {
@@ -612,7 +721,7 @@ pub fn run_c28(ctx: &Ctx, rep: &mut Report) {
             continue;
         }
         let overlap = max_active.load(Ordering::Relaxed);
-        rep.class(&format!("t{}:cap{}:n{}:overlap{}", threads, capacity, (total / capacity.max(1) as usize).min(20), overlap.min(16)));
+        rep.class(&format!("t{}:cap{}:n{}:overlap{}:refill{}", threads, capacity, (total / capacity.max(1) as usize).min(20), overlap.min(16), refill_k.unwrap_or(0)));
         rep.hist(if overlap >= 2 { "bursts:threads-overlapped" } else { "bursts:no-overlap-observed" });
         if case % 100 == 0 {
             rep.sample(|| w.clone());
